@@ -54,13 +54,23 @@ class ChartGen:
         self.prio_counter += 1
         return 10 + self.prio_counter
 
-    def fresh(self):
+    def fresh(self, parent=None):
         pool = [a + b for a in 'zyxcba' for b in 'qpo321']
         while True:
             nm = self.r.choice(pool) + ('' if self.n < 30 else str(self.n))
+            if getattr(self.k, 'zero_names', 0) and parent is not None and self.r.random() < self.k.zero_names:
+                # a name that differs from a sibling's by the leading zeros of a number only ('x1' / 'x01': two names)
+                sib = [c for c in self.sc.children_for(parent) if any(ch.isdigit() for ch in c)]
+                if sib:
+                    c = self.r.choice(sib)
+                    i = min(j for j, ch in enumerate(c) if ch.isdigit())
+                    nm = c[:i] + '0' + c[i:]
             if getattr(self.k, 'subnames', 0) and self.names and self.r.random() < self.k.subnames:
                 # a name that contains another state's name
                 nm = self.r.choice(self.names) + self.r.choice('xyz')
+            if getattr(self.k, 'odd_names', 0) and self.names and self.r.random() < self.k.odd_names:
+                # a name that continues another one with a blank and a sign (names are compared as they are)
+                nm = self.r.choice(self.names) + self.r.choice([' (copy)', ' !', ' 2', ' #1', '-b', '.1', ' +'])
             self.n += 1
             if nm not in self.names:
                 self.names.append(nm)
@@ -186,7 +196,7 @@ class ChartGen:
 
         def mk(parent, allowed, depth):
             budget[0] -= 1
-            name = self.fresh()
+            name = self.fresh(parent)
             if depth < k.chain:
                 kind = 'compound'
             elif budget[0] > 1 and depth < max(k.max_depth, k.chain + 2 if k.chain else 0):
@@ -316,6 +326,13 @@ class ChartGen:
                 tgt = r.choice(targets_out)
                 if self.ok_target(src, tgt):
                     sc.add_transition(Transition(src, tgt, event=r.choice(EVENTS), action=self.action_code(True),
+                                                 priority=self.fresh_prio(src)))
+            # ... and a way to the history state from inside its parent, which is not left on the way
+            inner = [n for n in leavers if n != par]
+            if inner and r.random() < 0.5:
+                src = r.choice(inner)
+                if self.ok_target(src, h):
+                    sc.add_transition(Transition(src, h, event=r.choice(EVENTS), action=self.action_code(True),
                                                  priority=self.fresh_prio(src)))
         sc.validate()
         return sc
@@ -578,6 +595,99 @@ def plan_edits(r, sc, need_wf=True):
         if not oracles.wf_json(ChartEnc(sc).json):
             return None
     return edits
+
+
+def scale_chart(r):
+    """Statecharts of another size than the random ones: very deep, very wide, or with a large mostly inactive
+    subtree — well-formed, with code of the modelled subset; names whose lexical order is not their numeric order.
+    Returns (statechart, history for interpreter 0)."""
+    kind = r.choice(['deep', 'wide', 'bushy'])
+    sc = Statechart('scale-' + kind, preamble='x = 0\ny = 0\nseen = -1\nlast = -1')
+    sc.add_state(CompoundState('root', initial='home'), None)
+    sc.add_state(BasicState('home', on_entry='y += 1'), 'root')
+    evs = []
+    if kind == 'deep':
+        depth = r.choice([35, 70, 100])
+        par = 'root'
+        for i in range(1, depth + 1):
+            n = 'l%d' % i
+            sc.add_state(CompoundState(n, on_entry='x += 1', on_exit='x -= 1'), par)
+            if par != 'root':
+                sc.state_for(par).initial = n
+            par = n
+        sc.add_state(BasicState('a', on_entry='y += 1'), par)
+        sc.add_state(BasicState('b', on_exit='y += 2'), par)
+        sc.state_for(par).initial = 'a'
+        sc.add_transition(Transition('home', 'l1', event='e'))
+        sc.add_transition(Transition('home', 'b', event='g'))
+        sc.add_transition(Transition('a', 'b', event='e', action='seen = x'))
+        sc.add_transition(Transition('b', 'a', event='f'))
+        sc.add_transition(Transition('b', 'home', event='g', action='last = x'))
+        # (far ancestors of the leaves react to the same events: the innermost enabled transition pre-empts them)
+        sc.add_transition(Transition('l1', 'home', event='e', action='last = 77'))
+        sc.add_transition(Transition('l2', 'home', event='f', action='last = 78'))
+        sc.add_transition(Transition('l%d' % r.randint(2, depth), 'home', event='f', guard='y > 1000'))
+        mid = 'l%d' % r.randint(2, depth - 1)
+        sc.add_transition(Transition(mid, mid, event='g', guard='x > 1000'))
+        # a deep history state at the top of the chain: what was active all the way down comes back, parents first
+        sc.add_state(DeepHistoryState('dh', memory='l2'), 'l1')
+        sc.add_transition(Transition('home', 'dh', event='h'))
+        evs = r.choice([['e', 'e', 'f', 'e', 'g', 'g', 'f', 'e'], ['e', 'e', 'g', 'h', 'f', 'g', 'h', 'e']])
+    elif kind == 'wide':
+        n = r.choice([40, 70, 130])
+        sc.add_state(CompoundState('W', initial='P'), 'root')
+        sc.add_state(ShallowHistoryState('wh', memory='P'), 'W')
+        sc.add_state(OrthogonalState('P', on_entry='x += 1'), 'W')
+        for i in range(n):
+            reg = 'r%d' % i
+            sc.add_state(CompoundState(reg, initial='a%d' % i), 'P')
+            sc.add_state(BasicState('a%d' % i, on_entry='x += 1'), reg)
+            sc.add_state(BasicState('b%d' % i, on_exit='y += 1'), reg)
+            if i % 7 == 0:
+                sc.add_transition(Transition('a%d' % i, 'b%d' % i, event='e', action='seen = x'))
+                sc.add_transition(Transition('b%d' % i, 'a%d' % i, event='f'))
+        sc.add_transition(Transition('home', 'P', event='e'))
+        sc.add_transition(Transition('home', 'b%d' % r.randrange(n), event='g'))
+        sc.add_transition(Transition('P', 'home', event='g', action='last = y'))
+        sc.add_transition(Transition('home', 'wh', event='h'))
+        evs = r.choice([['e', 'e', 'f', 'g', 'g', 'e', 'g'], ['e', 'e', 'g', 'h', 'f', 'g', 'h']])
+    else:
+        n = r.choice([30, 60, 120])
+        sc.add_state(CompoundState('big', initial='O', on_exit='x += 100'), 'root')
+        for i in range(n):
+            sc.add_state(BasicState('idle%d' % i), 'big')
+        sc.add_state(OrthogonalState('O'), 'big')
+        for reg in ('right', 'left', 'mid'):
+            sc.add_state(CompoundState(reg, initial=reg + '_0', on_exit='y = y * 2 + %d' % len(reg)), 'O')
+            sc.add_state(BasicState(reg + '_0', on_exit='x = x * 3 + %d' % len(reg)), reg)
+            sc.add_state(BasicState(reg + '_1'), reg)
+            sc.add_transition(Transition(reg + '_0', reg + '_1', event='f'))
+        sc.add_transition(Transition('home', 'big', event='e'))
+        sc.add_transition(Transition('big', 'home', event='g', action='seen = x'))
+        sc.add_transition(Transition('left_0', 'idle%d' % r.randrange(n), event='e', action='last = y'))
+        evs = ['e', 'g', 'e', 'f', 'g', 'e', 'e', 'g']
+    sc.validate()
+    ops, t = [['exec', slot_t, 0] for slot_t in (0,)], 0
+    ops = [['exec', 0, 0]]
+    for e in evs[:r.randint(4, len(evs))]:
+        ops.append(['queue', 0, {'ev': e, 'data': [['v', 1], ['b', True]]}])
+        t += r.choice([0, 1])
+        ops.append(['exec', 0, t])
+    return sc, ops
+
+
+def shift_times(case, off):
+    """every clock value of the history moves by `off` (seconds since some epoch, ticks of a fine clock, a value
+    with many decimals): time is whatever the clock shows; a float offset makes the case implementation-only"""
+    for op in case.payload['ops']:
+        if op[0] in ('exec', 'setclock', 'execute', 'execute_real'):
+            op[2] = op[2] + off
+        elif op[0] == 'create':
+            op[4] = op[4] + off
+    if isinstance(off, float):
+        case.payload['no_model'] = True
+        case.model_ok = False
+    return case
 
 
 def queue_many(r, slot, events):
